@@ -342,7 +342,7 @@ Definition enc_octets (sz : size) (bytes : list Z) : result bits :=
     else if n =? size_lo sz then Ok data else Err EUnmodelled in
   if size_ext sz then
     if size_in_root sz n then let* r := root in Ok (false :: r)
-    else let* l := enc_len_single n in Ok (true :: l ++ data)
+    else let* r := enc_frag (frag_fuel bytes) (fun b => Ok (to_bits 8 b)) bytes in Ok (true :: r)
   else root.
 
 Definition read_byte : reader Z := read_uint 8.
@@ -356,7 +356,7 @@ Definition read_octets (sz : size) : reader value :=
       do* bs <- read_n (Z.to_nat (size_lo sz + extra)) read_byte; rret (VBytes bs) in
   if size_ext sz then
     do* b <- read_bit;
-    if b then do* n <- read_len; do* bs <- read_n (Z.to_nat n) read_byte; rret (VBytes bs)
+    if b then do* bs <- read_frag_auto read_byte; rret (VBytes bs)
     else fixed_or_var
   else fixed_or_var.
 
@@ -788,10 +788,7 @@ Section Composite.
               else if n =? size_lo sz then Ok body else Err EUnmodelled in
         if size_ext sz then
           if size_in_root sz n then let* r := root in Ok (false :: r)
-          else
-            let* l := enc_len_single n in
-            let* body := enc_all (encT elem) vs in
-            Ok (true :: l ++ body)
+          else let* r := enc_frag (frag_fuel vs) (encT elem) vs in Ok (true :: r)
         else root
       | _ => Err EUnmodelled
       end.
@@ -805,7 +802,7 @@ Section Composite.
             do* vs <- read_n (Z.to_nat (size_lo sz + extra)) (decT elem); rret (VList vs) in
       if size_ext sz then
         do* b <- read_bit;
-        if b then do* n <- read_len; do* vs <- read_n (Z.to_nat n) (decT elem); rret (VList vs)
+        if b then do* vs <- read_frag_auto (decT elem); rret (VList vs)
         else normal
       else normal.
 
